@@ -159,14 +159,14 @@ T tdigest<T, A>::get_quantile(double rank) const {
   // at least 2 centroids
   const double weight = rank * centroids_weight_;
   if (weight < 1) return min_;
-  if (weight > centroids_weight_ - 1.0) return max_;
+  if (weight >= centroids_weight_ - 1.0) return max_; // ">=": the tail formula below is 0/0 for a last centroid of weight 2
   const double first_weight = centroids_.front().get_weight();
   if (first_weight > 1 && weight < first_weight / 2.0) {
     return min_ + (weight - 1.0) / (first_weight / 2.0 - 1.0) * (centroids_.front().get_mean() - min_);
   }
   const double last_weight = centroids_.back().get_weight();
   if (last_weight > 1 && centroids_weight_ - weight <= last_weight / 2.0) {
-    return max_ + (centroids_weight_ - weight - 1.0) / (last_weight / 2.0 - 1.0) * (max_ - centroids_.back().get_mean());
+    return max_ - (centroids_weight_ - weight - 1.0) / (last_weight / 2.0 - 1.0) * (max_ - centroids_.back().get_mean());
   }
 
   // interpolate between extremes
@@ -187,13 +187,13 @@ T tdigest<T, A>::get_quantile(double rank) const {
       }
       const double w1 = weight - weight_so_far - left_weight;
       const double w2 = weight_so_far + dw - weight - right_weight;
-      return weighted_average(centroids_[i].get_mean(), w1, centroids_[i + 1].get_mean(), w2);
+      return weighted_average(centroids_[i].get_mean(), w2, centroids_[i + 1].get_mean(), w1);
     }
     weight_so_far += dw;
   }
   const double w1 = weight - centroids_weight_ - centroids_.back().get_weight() / 2.0;
   const double w2 = centroids_.back().get_weight() / 2.0 - w1;
-  return weighted_average(centroids_.back().get_weight(), w1, max_, w2);
+  return weighted_average(centroids_.back().get_mean(), w1, max_, w2);
 }
 
 template<typename T, typename A>
@@ -296,7 +296,8 @@ void tdigest<T, A>::merge(vector_centroid& buffer, W weight) {
 
 template<typename T, typename A>
 double tdigest<T, A>::weighted_average(double x1, double w1, double x2, double w2) {
-  return (x1 * w1 + x2 * w2) / (w1 + w2);
+  // x1 <= x2: keep the result between them in spite of rounding
+  return std::max(x1, std::min((x1 * w1 + x2 * w2) / (w1 + w2), x2));
 }
 
 template<typename T, typename A>
